@@ -8,7 +8,11 @@
 (*    scenario is a SESSION: one transport, a sequence of requests (each   *)
 (*    with its own per-request headers), and - for OAuth2 with a refresh   *)
 (*    callback - what the callback returns at each call (a new token, the  *)
-(*    token it was shown, "" or None);                                     *)
+(*    token it was shown, "" or None).  The auth configuration is a TREE:  *)
+(*    `tree` is a token sequence over "(" ")" "*" - a composite is a       *)
+(*    parenthesised group, "*" stands for the next plug-in of `plugs` -    *)
+(*    and its MEANING is the left-to-right application of its leaves in    *)
+(*    depth-first order, however the composites are nested;                *)
 (*  * the REFERENCE meaning: request i carries `ExpectedHeaders` = fold of *)
 (*    the plug-ins over (ITS per-request headers over the CONFIGURED       *)
 (*    defaults), header names compared case-insensitively - nothing of an  *)
@@ -53,6 +57,8 @@ IdxStr(i) == CASE i = 1 -> "1" [] i = 2 -> "2" [] i = 3 -> "3" [] OTHER -> "4"
 
 Pats     == {"disjoint", "equal", "casevar"}
 Kinds    == {"B", "KH", "KQ", "KC", "H", "O", "OR"}
+\* second API keys with the SAME location and name as the first ones (what they set overlaps)
+Kinds2   == {"KH2", "KQ2", "KC2"}
 ReqPats  == {"none", "disjoint", "equal", "casevar"}     \* per-request header name relative to the default X-Tag
 RetKinds == {"new", "same", "empty", "none"}            \* what the refresh callback returns at one call
 
@@ -62,10 +68,27 @@ RetKinds == {"new", "same", "empty", "none"}            \* what the refresh call
 Injective(s) == \A i, j \in DOMAIN s : i # j => s[i] # s[j]
 PlugSeqs(max) == {s \in UNION {[1..n -> Kinds] : n \in 0..max} : Injective(s)}
 
-Wraps(p) == CASE Len(p) = 0 -> {"none"}
-              [] Len(p) = 1 -> {"direct", "composite"}
-              [] Len(p) = 2 -> {"flat", "nestR"}
-              [] OTHER      -> {"flat", "nestL", "nestR"}
+\* ---- the auth configuration as a tree: token sequences over "(" ")" "*"
+Toks == {"(", ")", "*"}
+Count(t, x, i) == Cardinality({j \in 1..i : t[j] = x})
+DepthAt(t, i)  == Count(t, "(", i) - Count(t, ")", i)
+Stars(t)       == Count(t, "*", Len(t))
+\* nothing (no auth=), a bare plug-in, or ONE composite whose members are plug-ins or composites, nested <= maxDepth
+TreeOK(t, maxDepth) ==
+  \/ t = <<>> \/ t = <<"*">>
+  \/ /\ Len(t) >= 2 /\ t[1] = "(" /\ DepthAt(t, Len(t)) = 0
+     /\ \A i \in 1..(Len(t) - 1) : DepthAt(t, i) >= 1 /\ DepthAt(t, i) <= maxDepth
+\* every tree of at most maxLen tokens (singleton and empty nested groups included)
+TreeUniverse(maxLen, maxDepth) == {t \in UNION {[1..m -> Toks] : m \in 2..maxLen} : TreeOK(t, maxDepth)}
+\* the reference meaning of a tree: its leaves, left to right (= `plugs`, since "*" is "the next plug-in")
+LeafOrder(t) == SelectSeq(t, LAMBDA x : x = "*")
+
+\* the wrappings of the "single" / "session" families: none / direct / CompositeAuth(p) / flat / nested right / nested left
+Wraps(p) == CASE Len(p) = 0 -> {<<>>}
+              [] Len(p) = 1 -> {<<"*">>, <<"(", "*", ")">>}
+              [] Len(p) = 2 -> {<<"(", "*", "*", ")">>, <<"(", "*", "(", "*", ")", ")">>}
+              [] OTHER      -> {<<"(", "*", "*", "*", ")">>, <<"(", "(", "*", "*", ")", "*", ")">>,
+                                <<"(", "*", "(", "*", "*", ")", ")">>}
 
 \* the bearer_token= shortcut: alone, or next to one plug-in ("auth takes precedence")
 Shorts(p) == IF Len(p) <= 1 THEN BOOLEAN ELSE {FALSE}
@@ -89,12 +112,12 @@ AllNew(n) == [i \in 1..n |-> "new"]
 RetSeqs(p, n) == IF InSeq("OR", p) THEN [1..n -> RetKinds] ELSE {AllNew(n)}
 
 ScenarioOK(s, maxPlugs, maxReqs) ==
-  /\ s.plugs \in PlugSeqs(maxPlugs)
-  /\ s.wrap \in Wraps(s.plugs) /\ s.short \in Shorts(s.plugs)
+  /\ Len(s.plugs) <= maxPlugs /\ Injective(s.plugs) /\ \A i \in DOMAIN s.plugs : s.plugs[i] \in Kinds \cup Kinds2
+  /\ TreeOK(s.tree, 3) /\ Stars(s.tree) = Len(s.plugs) /\ s.short \in Shorts(s.plugs)
   /\ s.dflt \in {"none", "tag"} /\ Len(s.reqs) \in 1..maxReqs /\ s.reqs \in ReqSeqs(s.dflt, Len(s.reqs))
   /\ s.rets \in RetSeqs(s.plugs, Len(s.reqs))
   /\ s.ca \in CallerAuth
-  /\ s.kn \in KeyNames(s.plugs, s.dflt) /\ s.hn \in HdrNames(s.plugs)
+  /\ s.kn \in Pats /\ s.hn \in Pats
   /\ s.params \in BOOLEAN /\ s.cookies \in BOOLEAN /\ s.body \in BOOLEAN
 
 \* ---------------------------------------------------------------------------------------------
@@ -117,6 +140,12 @@ PluginOf(k, sc) ==
                                            [] sc.kn = "casevar"  -> "x-tag"]
     [] k = "KQ" -> [base EXCEPT !.kind = "apikey", !.loc = "query", !.name = "k_q", !.val = "key-q"]
     [] k = "KC" -> [base EXCEPT !.kind = "apikey", !.loc = "cookie", !.name = "k_c", !.val = "key-c"]
+    [] k = "KH2" -> [base EXCEPT !.kind = "apikey", !.val = "key-h2",
+                                 !.name = CASE sc.kn = "disjoint" -> "X-Custom-Key"
+                                            [] sc.kn = "equal"    -> "X-Tag"
+                                            [] sc.kn = "casevar"  -> "x-tag"]
+    [] k = "KQ2" -> [base EXCEPT !.kind = "apikey", !.loc = "query", !.name = "k_q", !.val = "key-q2"]
+    [] k = "KC2" -> [base EXCEPT !.kind = "apikey", !.loc = "cookie", !.name = "k_c", !.val = "key-c2"]
     [] k = "H"  -> [base EXCEPT !.kind = "headers",
                                 !.hdrs = <<<<"X-Client-ID", "h-cid">>>> \o
                                          (CASE sc.hn = "disjoint" -> <<>>
@@ -147,7 +176,7 @@ Concrete(sc) ==
                     \o CallerAuthPair(sc, "def"),
    requests   |-> [i \in DOMAIN sc.reqs |-> ReqHeadersOf(sc, i)],
    plugins    |-> [i \in DOMAIN sc.plugs |-> PluginOf(sc.plugs[i], sc)],
-   wrap       |-> sc.wrap,
+   tree       |-> sc.tree,
    bearer     |-> IF sc.short THEN "tok-s" ELSE "",
    params     |-> IF sc.params THEN <<<<"q", "1">>, <<"page", "2">>>> ELSE <<>>,
    cookies    |-> IF sc.cookies THEN <<<<"sid", "c1">>>> ELSE <<>>,
@@ -204,8 +233,10 @@ FoldPlugins(h, ps) == IF ps = <<>> THEN h ELSE FoldPlugins(Over(CIMap(HeaderWrit
 
 ExpectedHeaders(v) == FoldPlugins(Over(CIMap(v.reqHeaders), CIMap(v.defaults)), Plugs(v))
 
+\* API keys of one location: a later key of the same name replaces the earlier one
 KeyPairs(v, loc) == LET ks == SelectSeq(v.plugins, LAMBDA p : p.kind = "apikey" /\ p.loc = loc)
-                    IN [i \in DOMAIN ks |-> <<ks[i].name, ks[i].val>>]
+                        last == SelectSeq([i \in DOMAIN ks |-> i], LAMBDA i : \A j \in DOMAIN ks : j > i => ks[j].name # ks[i].name)
+                    IN [i \in DOMAIN last |-> <<ks[last[i]].name, ks[last[i]].val>>]
 ExpectedQuery(v)   == v.params \o KeyPairs(v, "query")
 ExpectedCookies(v) == v.cookies \o KeyPairs(v, "cookie")
 
@@ -279,7 +310,7 @@ OneRequest(variant, cfg, i, st) ==    \* -> [wire, st]
   LET prepared == StepPerRequest(variant, cfg.requests[i], StepDefaults(variant, st.tdefaults))
       td       == DefaultsAfter(variant, st.tdefaults, prepared)
       scratch  == ScratchOf(variant, cfg, prepared) IN
-  IF cfg.plugins # <<>> THEN
+  IF cfg.tree # <<>> THEN
        LET r == RunPlugins(variant, cfg.plugins, i, scratch, st.stored, <<>>) IN
        [wire |-> WireOf(variant, cfg, r[1].headers, r[1], r[3], td), st |-> [tdefaults |-> td, stored |-> r[2]]]
   ELSE IF cfg.bearer # "" THEN
@@ -372,7 +403,15 @@ KeyFailuresOf(v, obs, i) ==
                                                            !.found = obs.headers[Min(inHdr)][2]])}
        ELSE {Fail("C17.apikey_location", [NoLocus EXCEPT !.location = "header", !.found = Where(obs, p.val)])}
   ELSE
-       IF \E j \in inLst : list[j][1] = p.name THEN {}
+       \* a later key of the same location and name legitimately replaces this one
+       IF \E j \in DOMAIN v.plugins : j > i /\ v.plugins[j].kind = "apikey" /\ v.plugins[j].loc = p.loc
+                                         /\ v.plugins[j].name = p.name THEN {}
+       ELSE IF \E j \in inLst : list[j][1] = p.name THEN {}
+       \* ... but an EARLIER one must not survive under the name
+       ELSE IF \E j \in 1..(i - 1) : /\ v.plugins[j].kind = "apikey" /\ v.plugins[j].loc = p.loc
+                                      /\ v.plugins[j].name = p.name
+                                      /\ \E m \in DOMAIN list : list[m] = <<p.name, v.plugins[j].val>>
+              THEN {Fail("C17.plugin_order", [NoLocus EXCEPT !.location = p.loc, !.found = "earlier-key"])}
        ELSE IF inLst # {} THEN {Fail("C17.apikey_name", [NoLocus EXCEPT !.location = p.loc,
                                                            !.found = list[Min(inLst)][1]])}
        ELSE {Fail("C17.apikey_location", [NoLocus EXCEPT !.location = p.loc, !.found = Where(obs, p.val)])}
